@@ -210,9 +210,14 @@ Qed.
 Lemma sky_roundtrip_e2d_live : forall order s d e, fwd_inj s -> d2e s d = Some e -> e2d (sky_roundtrip order s) e = Some d.
 Proof.
   intros order s d e Hinj H. unfold e2d, sky_roundtrip. cbn [o_e2d]. apply zfind_unique.
-  - intros v Hv. apply in_rev in Hv. apply in_map_iff in Hv as [[d' e'] [Heq Hin]]. cbn in Heq. inversion Heq; subst.
-    apply exported_pairs_sound in Hin. eapply Hinj; eauto.
-  - exists d. apply -> in_rev. apply in_map_iff. exists (d, e). split; [reflexivity|]. apply exported_pairs_complete. exact H.
+  - intros v Hv. apply in_app_or in Hv as [Hv|Hv].
+    + apply in_rev in Hv. apply in_map_iff in Hv as [[d' e'] [Heq Hin]]. cbn in Heq. inversion Heq; subst.
+      apply exported_pairs_sound in Hin. eapply Hinj; eauto.
+    + exfalso. apply filter_In in Hv as [_ Hv]. cbn [fst] in Hv. apply negb_true_iff in Hv.
+      assert (existsb (Z.eqb e) (map snd (exported_pairs order (o_d2e s))) = true) as Hx; [|congruence].
+      apply existsb_exists. exists e. split; [|apply Z.eqb_refl].
+      apply in_map_iff. exists (d, e). split; [reflexivity|]. apply exported_pairs_complete. exact H.
+  - exists d. apply in_or_app. left. apply -> in_rev. apply in_map_iff. exists (d, e). split; [reflexivity|]. apply exported_pairs_complete. exact H.
 Qed.
 
 Lemma sky_roundtrip_consistent : forall order s, bindings_consistent s -> bindings_consistent (sky_roundtrip order s).
